@@ -396,59 +396,94 @@ func C04(x *Idx) []V {
 	if !h.RunReturned || x.Touched() {
 		return out
 	}
-	// acceptable result codes
-	acc := map[int]string{}
-	anyTrigger := false
-	sb := x.ShutdownBegin()
+	return append(out, x.resultVerdict("C04")...)
+}
+
+// resultVerdict compares Run()'s result with the set of acceptable codes: the codes of
+// the processes whose end could have triggered the project shutdown, i.e. trigger events
+// that happened before the shutdown began (never its victims).
+func (x *Idx) resultVerdict(prop string) []V {
+	var out []V
+	h := x.H
+	mark := x.has(0, x.End, func(e world.Event) bool { return e.Kind == world.EvMark && e.Text == "shutdown-begin" })
+	if mark < 0 {
+		mark = x.End
+	}
+	type trig struct {
+		seq  int
+		code int
+		why  string
+	}
+	var trigs []trig
 	for _, sp := range h.Scenario.Procs {
-		if !scheduled(&sp) || sp.Replicas > 1 {
+		if !scheduled(&sp) && len(x.Insts[sp.Name]) == 0 {
+			continue
+		}
+		if sp.Replicas > 1 {
 			continue
 		}
 		name := sp.Name
 		flagEnd := sp.ExitOnEnd
 		flagFail := sp.Restart == "exit_on_failure"
-		final := x.finalStatus(name)
-		if sp.ExitOnSkipped && final == "Skipped" {
-			acc[1] = name + " skipped"
-			anyTrigger = true
-		}
-		if !flagEnd && !flagFail {
-			continue
-		}
-		if final == "Error" {
-			acc[1] = name + " failed to start"
-			anyTrigger = true
-			continue
-		}
-		in := x.lastInst(name)
-		if in == nil || in.Exit < 0 {
-			continue
-		}
-		if !flagEnd && in.Code == 0 {
-			continue
-		}
-		if in.Cause == world.CauseScripted {
-			acc[in.Code] = f("%s exit %d", name, in.Code)
-			anyTrigger = true
-			continue
-		}
-		// signalled: a trigger only if a user request (not the project shutdown) killed it
-		userStop := x.has(in.Launch, in.Exit, func(e world.Event) bool {
-			return e.Kind == world.EvAPI && (e.Text == sc.OpStop || e.Text == sc.OpRestart || e.Text == sc.OpStopMany) && isStopReq(e, name)
-		})
-		probeStop := x.has(in.Launch, in.Exit, func(e world.Event) bool {
-			return e.Kind == world.EvProbe && e.Proc == name && strings.Contains(e.Text, "fatal")
-		})
-		if (userStop >= 0 || probeStop >= 0) && (sb < 0 || in.Signals == nil || in.Signals[0] < sb) {
-			acc[in.Code] = f("%s stopped by request, exit %d", name, in.Code)
-			anyTrigger = true
+		for i, e := range x.Ev {
+			if e.Proc != name || e.Kind != world.EvState {
+				continue
+			}
+			switch e.Text {
+			case "Skipped":
+				if sp.ExitOnSkipped {
+					trigs = append(trigs, trig{i, 1, name + " skipped"})
+				}
+			case "Error":
+				if flagEnd || flagFail {
+					trigs = append(trigs, trig{i, 1, name + " failed to start"})
+				}
+			case "Completed":
+				if !flagEnd && !flagFail {
+					continue
+				}
+				// the end of the run loop: exit code of the last command before it, if any
+				var last *Inst
+				for _, in := range x.Insts[name] {
+					if in.Exit >= 0 && in.Exit < i {
+						last = in
+					}
+				}
+				code := 0
+				why := name + " ended without having been started"
+				if last != nil {
+					code = last.Code
+					why = f("%s exit %d (%s)", name, last.Code, last.Cause)
+				}
+				if flagEnd || code != 0 {
+					trigs = append(trigs, trig{i, code, why})
+				}
+			}
 		}
 	}
-	if !anyTrigger {
+	acc := map[int]string{}
+	first := mark
+	for _, t := range trigs {
+		if t.seq < mark {
+			acc[t.code] = t.why
+			if t.seq < first {
+				first = t.seq
+			}
+		}
+	}
+	// a shutdown requested through the API before any trigger: the statement does not say
+	// what Run() reports then
+	if api := x.has(0, mark, func(e world.Event) bool { return e.Kind == world.EvAPI && e.Text == sc.OpShutdown }); api >= 0 && api < first {
+		return nil
+	}
+	if len(acc) == 0 {
 		if h.RunCode != 0 {
-			out = append(out, V{"C04", "failure-without-trigger", f("Run() reported exit code %d but no exit_on_* condition was met", h.RunCode)})
+			out = append(out, V{prop, "failure-without-trigger", f("Run() reported exit code %d but no exit_on_* condition was met before the shutdown began", h.RunCode)})
 		}
 		return out
+	}
+	if mark == x.End {
+		return out // a trigger without any shutdown is judged by the liveness clauses
 	}
 	if _, ok := acc[h.RunCode]; !ok {
 		var why []string
@@ -456,7 +491,7 @@ func C04(x *Idx) []V {
 			why = append(why, f("%d (%s)", c, w))
 		}
 		sort.Strings(why)
-		out = append(out, V{"C04", "wrong-exit-code", f("Run() reported exit code %d; acceptable: %s", h.RunCode, strings.Join(why, ", "))})
+		out = append(out, V{prop, "wrong-exit-code", f("Run() reported exit code %d; acceptable: %s", h.RunCode, strings.Join(why, ", "))})
 	}
 	return out
 }
@@ -491,6 +526,9 @@ func (x *Idx) depFinal(d sc.Dep) depVerdict {
 	case CondCompleted, CondStarted, "":
 		return depSat
 	case CondSuccess:
+		if stopReq >= 0 && (len(l) == 0 || l[0].Launch > stopReq) {
+			return depMay // stopped before it was ever started: the statement does not say what it counts as
+		}
 		if final == "Skipped" || final == "Error" {
 			return depUnsat
 		}
@@ -586,18 +624,16 @@ func C05(x *Idx) []V {
 		if anyUnsat && !touched {
 			if launches > 0 || fails {
 				out = append(out, V{"C05", "launched-despite-unsatisfiable", f("%s was launched although dependency %s can never be satisfied", name, why)})
-			} else if sb < 0 || sp.ExitOnSkipped {
+			} else if sb < 0 {
 				if final != "Skipped" {
 					out = append(out, V{"C05", "not-skipped", f("%s has unsatisfiable dependency %s but its final status is %q", name, why, final)})
 				} else if fst != nil && fst.Code == 0 {
 					out = append(out, V{"C05", "skipped-exit-zero", f("%s is Skipped but reports exit code 0", name)})
 				}
 			}
-			if sp.ExitOnSkipped && final == "Skipped" && h.RunReturned && h.RunCode != 1 {
-				// another trigger may legitimately win; C04 judges the set, here only success is wrong
-				if h.RunCode == 0 {
-					out = append(out, V{"C05", "exit-on-skipped-ignored", f("%s (exit_on_skipped) was skipped but Run() reported success", name)})
-				}
+			if sp.ExitOnSkipped && final == "Skipped" && h.RunReturned {
+				// the skip is one of the triggers; the result must come from the trigger set
+				out = append(out, x.resultVerdict("C05")...)
 			}
 		}
 		if allSat && !touched && sb < 0 {
